@@ -11,7 +11,7 @@ PID = 'C18'
 MOD = 'mc.props.c18'
 
 FRAMES = {'4x4': (4, 4), '3x5': (3, 5), '16x16': (16, 16)}
-LEVELS = [0, 0.5, 3, 50, 1e4]
+LEVELS = [0, 0.5, 3, 50, 1e4, 5e9]
 MODELS = ['shot-poisson', 'shot-gaussian', 'read', 'dark-fpn', 'dark-rule07', 'psd']
 
 
@@ -217,6 +217,17 @@ def chk_history(case, acc, seed):
         warm = np.asarray(fn(**kw))
         if not np.array_equal(cold, warm):
             acc.violation(f'{fn.__name__}:history-dependent', dict(case, other=list(alt)), 'result depends on a preceding call')
+        # the caller owns the returned frame: editing it in place must not change what the next identical call returns
+        first = fn(**kw)
+        keep = np.array(first, copy=True)
+        try:
+            np.asarray(first)[...] = -7
+        except (ValueError, TypeError):
+            pass
+        again = np.asarray(fn(**kw))
+        if not np.array_equal(again, keep):
+            acc.violation(f'{fn.__name__}:returned-frame-is-shared', dict(case, other='edit-in-place'),
+                          'after the caller edited the returned frame in place, the same call returns the edited frame')
         acc.transitions += 1
     acc.cls('history')
     acc.case(case, outcome='history')
